@@ -231,7 +231,9 @@ fn oracle_combo<C: RangeCombo>(rng: &mut Rng, w: u32, s: u32, bps: &[(u32, Vec<u
         let n = match rng.next() % 8 { 0 => 0, 1 => 1, 2 => 60, _ => rng.next() % 40 } as usize;
         // some messages end with a directed pair of symbols: new range on the threshold, then
         // an upper end just above a word boundary (the configuration of defect D3)
-        let hunt = n >= 2 && rng.chance(1, 3);
+        // hunt: 0 = none, 1 = D3 configuration (modes 7, 6), 2 = interval ends on / next to word
+        // boundaries (`hunt_prep`, `hunt_final`), for every type combination
+        let hunt: u32 = if n >= 2 { match rng.next() % 6 { 0 | 1 => 1, 2 | 3 | 4 => 2, _ => 0 } } else { 0 };
         let mut msg: Vec<(u32, u32, Vec<u128>, usize)> = Vec::new();
         let mut snaps: Vec<(usize, RangeCoderState<C::W, C::S>, bool)> = Vec::new();
         let mut bound = SizeBound::new();
@@ -352,13 +354,28 @@ fn oracle_combo<C: RangeCombo>(rng: &mut Rng, w: u32, s: u32, bps: &[(u32, Vec<u
             }
             // --- encode the next symbol on both
             let (b, p) = fixed_bp.unwrap_or_else(|| pick_bp(rng, bps));
-            let (b, p, mode) = if hunt && step + 2 >= n {
+            let (b, p, mode) = if hunt != 0 && step + 2 >= n {
                 let (bb, ps) = bps.last().unwrap();
                 (*bb, *ps.last().unwrap(), Some(if step + 2 == n { 7 } else { 6 }))
             } else {
                 (b, p, None)
             };
-            let (cdf, sym) = steer_mode::<C>(rng, &coder, w, s, p, &pool, b, mode);
+            let (cdf, sym) = if hunt == 2 && step + 2 == n {
+                hunt_prep::<C>(rng, &coder, w, s, b, p, &pool)
+            } else if hunt == 2 && step + 1 == n {
+                match hunt_final::<C>(rng, &coder, w, s, b, p, 24) {
+                    Some((cdf, sym, exact)) => {
+                        rep.count(if exact { "C11.hunt.final.wanted_class" } else { "C11.hunt.final.some_class" });
+                        (cdf, sym)
+                    }
+                    None => {
+                        rep.count("C11.hunt.final.missed");
+                        steer::<C>(rng, &coder, w, s, p, &pool, b)
+                    }
+                }
+            } else {
+                steer_mode::<C>(rng, &coder, w, s, p, &pool, b, mode)
+            };
             desc.push_str(&format!(" | enc {:x} {:x} {:x} {:x}", b, p, cdf[sym], cdf[sym + 1] - cdf[sym]));
             let o1 = guarded(|| C::enc_sym(&mut coder, b, p, &cdf, sym).unwrap());
             let o2 = guarded(|| C::enc_sym(&mut twin, b, p, &cdf, sym).unwrap());
@@ -394,7 +411,14 @@ fn oracle_combo<C: RangeCombo>(rng: &mut Rng, w: u32, s: u32, bps: &[(u32, Vec<u
             if low_part >= 1 && low_part < pow2(s - 2 * w) {
                 rep.count(&format!("C11.d3_condition.{}", tag));
             }
-            if hunt { rep.count("C11.hunted"); }
+            if hunt == 1 { rep.count("C11.hunted"); }
+        }
+        if !msg.is_empty() {
+            let (lo, r, _) = enc_view::<C>(&coder);
+            for cl in boundary_classes(lo, r, w, s) {
+                rep.count(&format!("final.{}.{}", tag, cl));
+            }
+            rep.count(&format!("final.{}.{}", tag, word_relation(lo, r, w, s)));
         }
         let final_snap = coder.pos();
         let sealed_w: Vec<C::W> = coder.into_compressed().unwrap();
@@ -486,15 +510,35 @@ fn oracle_combo<C: RangeCombo>(rng: &mut Rng, w: u32, s: u32, bps: &[(u32, Vec<u
         }
 
         // ---------------- C11: arbitrary suffix ----------------
-        {
-            let k = 1 + (rng.next() % (s / w + 2) as u64) as usize;
+        if !msg.is_empty() {
             let mw = mask(w);
-            let suffix: Vec<u128> = match rng.next() % 4 {
-                0 | 1 => vec![mw; k],
-                2 => vec![0; k],
-                _ => gen_words(rng, w, k),
-            };
-            if !msg.is_empty() {
+            let k = 1 + (rng.next() % (s / w + 2) as u64) as usize;
+            let mut suffixes: Vec<(Vec<u128>, &str)> = Vec::new();
+            let mut ones_zero = vec![mw; k];
+            if k > 1 {
+                for x in ones_zero.iter_mut().skip(1) {
+                    *x = 0;
+                }
+            }
+            let mut zero_ones = vec![mw; k + 1];
+            zero_ones[0] = 0;
+            let all: Vec<(Vec<u128>, &str)> = vec![
+                (vec![mw; k], ""),
+                (vec![0; k], ""),
+                (ones_zero, ""),
+                (zero_ones, ""),
+                (gen_words(rng, w, k), ""),
+            ];
+            if hunt != 0 || rng.chance(1, 4) {
+                suffixes.extend(all);
+            } else {
+                suffixes.push(all[(rng.next() % 5) as usize].clone());
+            }
+            if rng.chance(1, 4) {
+                let (second, _) = gen_valid_stream::<C>(rng, w, s, bps, 6);
+                suffixes.push((second, " (a second sealed message)"));
+            }
+            for (suffix, note) in suffixes {
                 rep.eval("C11");
                 let mut data = payload.clone();
                 data.extend(suffix.iter().copied());
@@ -503,26 +547,11 @@ fn oracle_combo<C: RangeCombo>(rng: &mut Rng, w: u32, s: u32, bps: &[(u32, Vec<u
                     rep.count(&format!("C11.failures.{}", tag));
                     if s == 2 * w || d3_reported < 4 {
                         d3_reported += 1;
-                        rep.fail("C11", format!("{} | export => {} ; suffix {} ; decoding sealed++suffix with{} => {}", plain_new, show_list(payload.clone()), show_list(suffix.clone()), msg_decs(&msg), t));
+                        rep.fail("C11", format!("{} | export => {} ; suffix {}{} ; decoding sealed++suffix with{} => {}", plain_new, show_list(payload.clone()), show_list(suffix.clone()), note, msg_decs(&msg), t));
                     }
+                    break;
                 }
                 rep.sample("C11", || format!("{} | export ; suffix {}", plain, show_list(suffix.clone())));
-                // back-to-back messages: a second sealed message right after the first
-                if rng.chance(1, 4) {
-                    rep.eval("C11");
-                    let (second, enc2) = gen_valid_stream::<C>(rng, w, s, bps, 6);
-                    let mut data = payload.clone();
-                    data.extend(second.iter().copied());
-                    let mut d: Dec<C> = RangeDecoder::from_compressed(words::<C::W>(&data)).unwrap();
-                    if let Err(t) = decode_expect::<C, _>(&mut d, &msg) {
-                        rep.count(&format!("C11.failures.{}", tag));
-                        if s == 2 * w || d3_reported < 4 {
-                            d3_reported += 1;
-                            rep.fail("C11", format!("{} | export => {} ; suffix {} (a second sealed message) => {}", plain_new, show_list(payload.clone()), show_list(second), t));
-                        }
-                    }
-                    let _ = enc2;
-                }
             }
         }
 
